@@ -151,13 +151,27 @@ def judge(case, c2mod, ctx=None):
         got = {n: getattr(back, n) for n in names}
         if got != payload:
             return "ref->lib", f"recover(reference message) = {core.short(got)} != {core.short(payload)} (base64url padded={pad})"
-    # a transform object is reusable: a second payload through the same object must not see anything of the first
+    # a transform object is reusable: a second payload through the same object must not see anything of the first,
+    # the initial request handed in belongs to the caller (frame condition), and a message already produced must not change
     note("reuse")
     payload2 = {n: bytes(reversed(v)) + b"#2" for n, v in payload.items()}
+    shared = _mk_request(c2mod, req)
+    shared_before = _msg_of(shared)
     try:
+        random.seed(seed + 2)
+        first = t.transform(c2data, shared)
+        first_before = _msg_of(first)
         random.seed(seed + 1)
-        http2 = t.transform(c2mod.C2Data(**payload2), _mk_request(c2mod, req))
+        http2 = t.transform(c2mod.C2Data(**payload2), shared)
         back2 = recover(http2)
+    except Exception as e:  # noqa: BLE001
+        return "reuse", f"second use of the same transform object raised {type(e).__name__}: {e}"
+    if _msg_of(shared) != shared_before:
+        return "reuse.frame", f"transform() modified the initial request it was given: {core.short(shared_before)} -> {core.short(_msg_of(shared))}"
+    if _msg_of(first) != first_before:
+        return "reuse.frame", "a message produced earlier changed when the same initial request was transformed again"
+    try:
+        pass
     except Exception as e:  # noqa: BLE001
         return "reuse", f"second use of the same transform object raised {type(e).__name__}: {e}"
     want2 = None
